@@ -776,7 +776,15 @@ def rule_cell_equations(ctx):
     r(ctx)
 
 
+def rule_live_config(ctx):
+    """The score is the scheme of the matcher's CURRENT configuration: no routine may read bonus data that was derived
+    from the configuration at construction time (shared with C10.config-only-state)."""
+    from props.c10 import rule_live_config as r
+    r(ctx)
+
+
 def rules(ctx):
+    ctx.run_rule("C03.live-config", rule_live_config)
     ctx.run_rule("C03.cell-equations", rule_cell_equations)
     ctx.run_rule("C03.constants", rule_constants)
     ctx.run_rule("C03.bonus-table", rule_bonus_table)
